@@ -99,7 +99,14 @@ Check C10_remove_refines :
   forall (A : Type) (eqa : A -> A -> bool) (l : list A) (x : A) (at_ : Z),
     remove_impl eqa l x = remove_spec eqa l x /\
     remove_at_impl l at_ = C08.Model.remove_at_spec l at_.
-Check C10_calls_refine_partial :
+Check C10_compare_extends_to_total_order :
+  cmp_laws ctot /\ forall a b c, cmp_val a b = Some c -> ctot a b = c.
+Check C10_sort_refines :
+  forall k l, sort_determinate k l = true ->
+    sort_impl k l = sort_spec k l /\ set_impl k l = set_spec k l.
+Check C10_calls_refine :
+  forall c, judge c = JSpec -> impl_call c = spec_call c.
+Check C10_simple_calls_refine :
   forall c, simple_call c = true -> impl_call c = spec_call c.
 Check C10_fold_laws :
   forall f l1 l2 acc,
@@ -140,3 +147,8 @@ Check eq_refl : keyd (Some FLen) (VStr [97%N]) = VNum 1.
 Check eq_refl : keyd (Some FLen) VNull = VNull.
 Check eq_refl : cz (VNum 1) VNegZero = Gt.
 Check eq_refl : num_keys None [VNum 1] = Forall (fun x => exists v, keyfn None x = Some v /\ is_num v = true) [VNum 1].
+Check eq_refl : ctot (VArr [VNum 1; VNull]) (VArr [VNum 1; VBool true]) = Lt.
+Check eq_refl : ctot VNegZero (VNum 0) = Eq.
+Check eq_refl : ctot (VStr [98%N]) (VArr []) = Lt.
+Check eq_refl : judge (CSort (VArr [VArr [VNum 1; VNull]; VArr [VNum 1; VNull; VNum 0]; VArr [VNum 2]]) None) = JSkip.
+Check eq_refl : sort_determinate None [VArr [VNum 1; VNull]; VArr [VNum 0]] = true.
